@@ -149,6 +149,11 @@ static void run_history(vh::Ctx & c, vh::Rng & r, int m, bool is_float)
       // same size as the previous problem (fresh content)
       Problem q; gen_problem<S>(r, m, q, is_float);
       if (q.n >= kept_n) {q.n = kept_n; q.J = q.J.topRows(q.n).eval(); q.Y = q.Y.head(q.n).eval(); q.W = q.W.head(q.n).eval(); p = q;}
+    } else if (k > 1 && prev_n > m && r.coin(0.15)) {
+      // back to exactly the largest size seen so far (the buffer capacity)
+      Problem q;
+      for (int tries = 0; tries < 6; ++tries) {gen_problem<S>(r, m, q, is_float); if (q.n >= prev_n) {break;}}
+      if (q.n >= prev_n) {q.n = prev_n; q.J = q.J.topRows(q.n).eval(); q.Y = q.Y.head(q.n).eval(); q.W = q.W.head(q.n).eval(); p = q; c.cat("problem_at_exact_buffer_capacity");}
     } else if (k > 0 && r.coin(0.4)) {p.n = std::max(m, std::min(p.n, prev_n / 2)); p.J = p.J.topRows(p.n).eval(); p.Y = p.Y.head(p.n).eval(); p.W = p.W.head(p.n).eval();}
     if (prev_n >= 0 && p.n < prev_n) {shrunk = true;}
     if (prev_n >= 0 && p.n > prev_n) {grown = true;}
